@@ -75,7 +75,7 @@ def setFixTags : KT → Path Key Val → List String
 def insTags : KT → Path Key Val → Key → List String
   | .nil, p, k => setFixTags (.node .R .nil k [] .nil) p
   | .node c l nk nv r, p, k =>
-    match Key.cmp nk k with
+    match orient CelloGen.Tree.setDescent Key.cmp nk k with
     | .eq => ["set:update"]
     | .lt => insTags l ({ dir := .L, c := c, k := nk, v := nv, sib := r } :: p) k
     | .gt => insTags r ({ dir := .Rt, c := c, k := nk, v := nv, sib := l } :: p) k
@@ -108,7 +108,7 @@ def spliceTags (x : Loc Key Val) : List String :=
 def remTags : KT → Path Key Val → Key → List String
   | .nil, _, _ => ["rem:absent"]
   | .node c l nk nv r, p, k =>
-    match Key.cmp nk k with
+    match orient CelloGen.Tree.remDescent Key.cmp nk k with
     | .eq =>
       match l, r with
       | .node .., .node .. =>
